@@ -20,8 +20,8 @@ from AIDojoCoordinator.worlds.NSEGameCoordinator import NSGCoordinator
 from .sim import default_config
 
 SVC_NAMES = ["ssh", "http", "postgresql", "bash", "smb", "rdp", "ftp", "powershell"]
-OWNERS = ["User1", "User2", "admin", "www", "", "ünï"]
-DATA_IDS = ["DatabaseData", "DataFromServer1", "secret", "", "Data x", "üñí"]
+OWNERS = ["User1", "User2", "admin", "www", "", "ünï", " lead", "trail "]
+DATA_IDS = ["DatabaseData", "DataFromServer1", "secret", "", "Data x", "üñí", " DatabaseData", "secret ", "report_EOF_2024"]
 
 PRIVATE_BASES = ["192.168.%d.0/24", "10.%d.0.0/24", "172.%d.8.0/24", "192.168.%d.0/26", "10.0.%d.0/25", "192.168.%d.0/23", "10.%d.0.0/16"]
 PUBLIC_NETS = ["213.47.23.192/26", "8.8.8.0/24", "130.149.7.0/28", "100.64.3.0/24", "203.0.113.0/24", "198.51.100.0/25", "192.0.2.0/24", "198.18.4.0/24"]
@@ -78,7 +78,7 @@ def gen_scenario(rng: random.Random, max_nodes=6, one_spelling=False):
         for name in rng.sample(SVC_NAMES, rng.choice([0, 1, 1, 2, 3])):
             data = [cc.DataConfig(owner=rng.choice(OWNERS), description=rng.choice(DATA_IDS))
                     for _ in range(rng.choice([0, 0, 1, 2, 3]))]
-            kw = dict(name=name, owner=rng.choice(OWNERS), version=rng.choice(["1.0", "8.1.0", ""]),
+            kw = dict(name=name, owner=rng.choice(OWNERS), version=rng.choice(["1.0", "8.1.0", "", "14.3.0 ", " 2", "1.0"]),
                       local=rng.random() < 0.4, access_level=cc.AccessLevel.LIMITED)
             if data or rng.random() < 0.5:
                 kw["private_data"] = data
